@@ -270,10 +270,10 @@ func TestVerif_C50(t *testing.T) {
 						sites := []string{"rest.StripPassword", "location.StripPassword"}
 						// message sites: a seeded slice of the table (all of it in the thorough tier for the cheap sites)
 						if c.HasPw {
-							if (n/4+int(kit.Seed()))%kit.Pick(11, 3) == 0 {
+							if (n/4+int(kit.Seed()))%kit.Pick(11, 6) == 0 {
 								sites = append(sites, msgSites[:6]...)
 							}
-							if (n/4+int(kit.Seed()))%kit.Pick(17, 7) == 0 {
+							if (n/4+int(kit.Seed()))%kit.Pick(17, 14) == 0 {
 								sites = append(sites, msgSites[6:]...)
 							}
 						}
